@@ -16,8 +16,9 @@ def realize(v):
     return deep_realize(v)
 
 
-def fail(lemma_id, msg, **args):
-    """Record the (realised) arguments of a failing lemma and fail the path."""
+def fail(lemma_id, fmt, **args):
+    """Record the (realised) arguments of a failing lemma and fail the path. The message is
+    formatted from the realised values only (formatting symbolic values would fork)."""
     real = {}
     for k, v in args.items():
         try:
@@ -25,11 +26,15 @@ def fail(lemma_id, msg, **args):
         except Exception:
             real[k] = repr(v)
     with NoTracing():
+        try:
+            msg = fmt.format(**real)
+        except Exception:
+            msg = fmt
         if not CEX:
             CEX.update({"lemma": lemma_id, "message": msg, "args": real})
     raise AssertionError(msg)
 
 
-def check(cond, lemma_id, msg, **args):
+def check(cond, lemma_id, fmt, **args):
     if not cond:
-        fail(lemma_id, msg, **args)
+        fail(lemma_id, fmt, **args)
